@@ -1685,6 +1685,8 @@ class MindsDBParser(Parser):
     def kw_parameter(self, p):
         key = getattr(p, 'identifier', None) or getattr(p, 'identifier0', None)
         assert key is not None
+        if not all(isinstance(part, str) for part in key.parts):
+            raise ParsingException(f"Parameter name can't contain '*': {str(key)}")
         key = '.'.join(key.parts)
         return {key:p[2]}
 
